@@ -612,6 +612,7 @@ func checkEventLevels(senderLevel int64, oldPowerLevels, newPowerLevels PowerLev
 		{oldPowerLevels.Redact, newPowerLevels.Redact},
 		{oldPowerLevels.StateDefault, newPowerLevels.StateDefault},
 		{oldPowerLevels.EventsDefault, newPowerLevels.EventsDefault},
+		{oldPowerLevels.UsersDefault, newPowerLevels.UsersDefault},
 	}
 
 	// Then add checks for each event key in the new levels.
